@@ -20,9 +20,7 @@ RULE = R.__dict__.get("RULE", "") or (
 )
 ASSUMPTIONS = [
     "hash_sha256 o json.dumps is injective on the hashed dictionaries",
-    "strip_punct(antecedent) enters the resolver model as a value computed by the implementation (oracle field); "
-    "the function itself is modelled separately (Model/StripPunct.v on the regenerated re.sub chain) and compared "
-    "with eyecite.utils.strip_punct in the strip-punct stream",
+    "strip_punct(antecedent) is computed by the model (Model/StripPunct.v on the regenerated re.sub chain) inside the kernel for every correspondence case; the model is compared with eyecite.utils.strip_punct in C07's strip-punct stream",
     "re.match(r'(?:at )?(\\d+)', pin) is hand-modelled (pin_number); validated by the correspondence stream",
 ]
 
